@@ -61,13 +61,25 @@ def parse_reports(err_text):
 def run(prop, tier, seed, seconds):
     t0 = time.time()
     binary = build()
-    budget = seconds or (25 if tier == 'quick' else 420)
+    # a fixed number of schedules (run indices 0..total-1, dealt to 64 worker processes by stride): what is explored depends on
+    # (VERIF_SEED, tier) only; the wall clock is a cap (4x the time the runs take on the reference sandbox)
+    nominal = 25 if tier == 'quick' else 420
+    total = 14000 if tier == 'quick' else 240000
+    if seconds:
+        total = max(64, int(total * seconds / nominal))
+        nominal = seconds
+    deadline = time.time() + D.CAP_FACTOR * nominal
     workers = D.NPROC
+    nslices = 64
     env = dict(os.environ, TSAN_OPTIONS=TSAN_ENV)
 
     def work(k):
+        count = (total - k + nslices - 1) // nslices if total > k else 0
+        remain = deadline - time.time()
+        if count == 0 or remain < 0.5:
+            return ({'runs': 0, 'ops': 0, 'kinds': {}}, [], [], 0, True, count)
         with tempfile.TemporaryFile('w+') as ef:
-            r = subprocess.run([binary, 'run', str(seed), str(k), '100000000', '%.1f' % budget, str(workers)], stdout=subprocess.PIPE, stderr=ef, text=True, env=env)
+            r = subprocess.run([binary, 'run', str(seed), str(k), str(count), '%.1f' % remain, str(nslices)], stdout=subprocess.PIPE, stderr=ef, text=True, env=env)
             ef.seek(0)
             err = ef.read()
         stats = None
@@ -77,16 +89,19 @@ def run(prop, tier, seed, seconds):
                 stats = json.loads(line[6:])
             elif line.startswith('B '):
                 bytes_changed.append(line)
-        return stats, bytes_changed, parse_reports(err), r.returncode, ('DONE' in r.stdout)
+        return stats, bytes_changed, parse_reports(err), r.returncode, ('DONE' in r.stdout), count
 
     with cf.ThreadPoolExecutor(workers) as ex:
-        outs = list(ex.map(work, range(workers)))
+        outs = list(ex.map(work, range(nslices)))
     runs = ops = 0
     kinds = {}
     viol, faults = [], []
-    for stats, changed, reports, rc, done in outs:
+    cut = 0
+    for stats, changed, reports, rc, done, count in outs:
         if stats:
             runs += stats['runs']; ops += stats['ops']
+            if stats['runs'] < count and done:
+                cut += 1
             for k, v in stats['kinds'].items():
                 kinds[k] = kinds.get(k, 0) + v
         if not done:
@@ -102,30 +117,39 @@ def run(prop, tier, seed, seconds):
     nviol = 0
     seen = set()
     os.makedirs(D.REPLAYS, exist_ok=True)
+    more = 0
     for (run_i, what) in sorted(viol, key=lambda v: (v[0] is None, v[0])):
-        key = re.sub(r'0x[0-9a-f]+', '0x?', what)[:120]
+        key = re.sub(r'0x[0-9a-f]+', '0x?', re.sub(r'^B \d+ ', 'B ', what))[:120]
         if key in seen:
             continue
         seen.add(key)
-        rep = os.path.join(D.REPLAYS, 'C20-%d-%s.replay' % (seed, run_i))
-        sched = subprocess.run([binary, 'one', str(seed), str(run_i), '-v'], stdout=subprocess.PIPE, stderr=subprocess.DEVNULL, text=True, env=env).stdout
-        with open(rep, 'w') as f:
-            f.write('amcsim-sched v1\nseedbase %d\nindex %s\n%s\nexpect %s\n' % (seed, run_i, sched.strip(), what[:300]))
         hit = None
         for (p, rx, desc) in known:
             if p == prop and rx.search(what):
                 hit = desc
+        if not hit and nviol >= 16:
+            more += 1  # the first 16 distinct unlisted reports get a replay file each; the rest are only counted
+            continue
+        rep = os.path.join(D.REPLAYS, 'C20-%d-%s.replay' % (seed, run_i))
+        sched = subprocess.run([binary, 'one', str(seed), str(run_i), '-v'], stdout=subprocess.PIPE, stderr=subprocess.DEVNULL, text=True, env=env).stdout
+        with open(rep, 'w') as f:
+            f.write('amcsim-sched v1\nseedbase %d\nindex %s\n%s\nexpect %s\n' % (seed, run_i, sched.strip(), what[:300]))
         if hit:
             D.log('KNOWN-FINDING: property=%s %s' % (prop, hit))
         else:
             nviol += 1
             D.log('VIOLATION property=%s replay=%s' % (prop, rep))
             D.log('  ' + what[:400])
+    if more:
+        D.log('NOTE %d further distinct unlisted report(s) of the same run not written out (the first 16 are reported above)' % more)
     for f in faults[:5]:
         D.log('HARNESS-FAULT ' + f[:400])
     wall = time.time() - t0
     sample = subprocess.run([binary, 'one', str(seed), '0', '-v'], stdout=subprocess.PIPE, stderr=subprocess.DEVNULL, text=True, env=env).stdout.strip().splitlines()
-    cov = {'evaluations': max(runs, 1), 'distinct_nontrivial': runs, 'rule': RULE, 'samples': [{'seedbase': seed, 'index': 0, 'run': sample}],
+    if cut:
+        D.log('NOTE time cap: %d of %d worker(s) stopped before their planned schedules (%d of %d done)' % (cut, nslices, runs, total))
+    cov = {'evaluations': max(runs, 1), 'distinct_nontrivial': runs,
+           'budget': {'mode': 'fixed number of schedules; the wall clock is only a cap', 'planned_runs': total, 'completed_runs': runs, 'slices_cut_by_time_cap': cut}, 'rule': RULE, 'samples': [{'seedbase': seed, 'index': 0, 'run': sample}],
            'operations': ops, 'container_kinds': kinds, 'runs_per_hour': int(runs / max(wall, 1e-9) * 3600),
            'fault_kinds_injected': {'none': 'the only nondeterminism this property depends on is the thread schedule, which the simulator decides'},
            'components': {'real': ['amc containers with the real amc::allocator (malloc)', 'std::thread / pthreads', 'ThreadSanitizer runtime'],
@@ -134,7 +158,7 @@ def run(prop, tier, seed, seconds):
                      ['interleaving at operation granularity: sufficient for happens-before race detection of unsynchronised accesses; amc has no atomics',
                       'TSan keeps a bounded access history per memory cell; varying the schedule is what keeps a rare write next to a foreign read',
                       'reports are attributed by racing address (footprint of the shared container) or amc:: frames; anything else is a harness fault'], wall, nviol)
-    D.log('[%s] tier=%s seed=%d runs=%d operations=%d violations=%d wall=%.0fs' % (prop, tier, seed, runs, ops, nviol, wall))
+    D.log('[%s] tier=%s seed=%d runs=%d (planned %d) operations=%d violations=%d wall=%.0fs' % (prop, tier, seed, runs, total, ops, nviol, wall))
     if nviol:
         return 1
     return 2 if faults else 0
